@@ -1,4 +1,5 @@
 """C02 - tag writes change exactly the addressed data, exactly once."""
+from vlib.bench import ScenarioDead
 from vlib import common, logixreq
 from vlib.logixbench import CONFIGS, LogixScenario
 
@@ -69,202 +70,205 @@ def run(ctx):
     rng = ctx.rng()
     quick = ctx.quick
     nproj = 40 if quick else 400
-    for pi in range(nproj):
-        cfg = CONFIGS[(pi * ctx.nshards + ctx.shard) % len(CONFIGS)]
-        sc = LogixScenario(rng, size=rng.choice(["small", "small", "medium", "medium", "large"]), config=cfg)
-        res.count("projects")
-        if not sc.ok():
-            res.ev()
-            res.violation("open-failed", f"LogixDriver.open() against a conforming controller ({sc.label}) -> {sc.opened!r:.300}", {"config": sc.label})
-            sc.close()
-            continue
-        dev, prj = sc.dev, sc.prj
-        for ci in range(16 if quick else 40):
-            k = rng.choice([1, 1, 1, 2, 3, 5, 8, 12])
-            reqs = []
-            for _ in range(k):
-                r = logixreq.gen_request(prj, rng, sc.conn_size, for_write=True)
-                if r.kind == "value" and r.dtype.kind == "struct" and any(m.name.startswith("__") for m in r.dtype.members):
+    for pi in range(nproj):  # WRAPPED
+        try:
+            cfg = CONFIGS[(pi * ctx.nshards + ctx.shard) % len(CONFIGS)]
+            sc = LogixScenario(rng, size=rng.choice(["small", "small", "medium", "medium", "large"]), config=cfg)
+            res.count("projects")
+            if not sc.ok():
+                res.ev()
+                res.violation("open-failed", f"LogixDriver.open() against a conforming controller ({sc.label}) -> {sc.opened!r:.300}", {"config": sc.label})
+                sc.close()
+                continue
+            dev, prj = sc.dev, sc.prj
+            for ci in range(16 if quick else 40):
+                k = rng.choice([1, 1, 1, 2, 3, 5, 8, 12])
+                reqs = []
+                for _ in range(k):
+                    r = logixreq.gen_request(prj, rng, sc.conn_size, for_write=True)
+                    if r.kind == "value" and r.dtype.kind == "struct" and any(m.name.startswith("__") for m in r.dtype.members):
+                        continue
+                    reqs.append(logixreq.attach_value(r, rng))
+                if len(reqs) >= 2 and rng.random() < 0.35:
+                    # several bits of one word in one call
+                    base = next((r for r in reqs if r.kind == "bit"), None)
+                    if base is not None:
+                        for b in rng.sample(range(8 * base.dtype.size), min(3, 8 * base.dtype.size)):
+                            txt = base.text.rsplit(".", 1)[0] + f".{b}"
+                            r2 = logixreq.Req(txt, base.tag, base.dtype, base.offset, 1, False, "bit", bit=b, avail=1, shape=base.shape)
+                            reqs.append(logixreq.attach_value(r2, rng))
+                if len(reqs) >= 2 and rng.random() < 0.15:
+                    dup = reqs[0]
+                    r2 = logixreq.Req(dup.text, dup.tag, dup.dtype, dup.offset, dup.count, dup.explicit, dup.kind, bit=dup.bit, avail=dup.avail, shape=dup.shape)
+                    reqs.append(logixreq.attach_value(r2, rng))
+                if not reqs:
                     continue
-                reqs.append(logixreq.attach_value(r, rng))
-            if len(reqs) >= 2 and rng.random() < 0.35:
-                # several bits of one word in one call
-                base = next((r for r in reqs if r.kind == "bit"), None)
-                if base is not None:
-                    for b in rng.sample(range(8 * base.dtype.size), min(3, 8 * base.dtype.size)):
-                        txt = base.text.rsplit(".", 1)[0] + f".{b}"
-                        r2 = logixreq.Req(txt, base.tag, base.dtype, base.offset, 1, False, "bit", bit=b, avail=1, shape=base.shape)
-                        reqs.append(logixreq.attach_value(r2, rng))
-            if len(reqs) >= 2 and rng.random() < 0.15:
-                dup = reqs[0]
-                r2 = logixreq.Req(dup.text, dup.tag, dup.dtype, dup.offset, dup.count, dup.explicit, dup.kind, bit=dup.bit, avail=dup.avail, shape=dup.shape)
-                reqs.append(logixreq.attach_value(r2, rng))
-            if not reqs:
-                continue
-            rng.shuffle(reqs)
-            snap = prj.snapshot()
-            jbefore = len(dev.write_journal)
-            args = [(r.text, r.value) for r in reqs]
-            st, out = sc.b.call("write", sc.drv.write, *args) if len(args) > 1 or rng.random() < 0.5 else sc.b.call("write", sc.drv.write, args[0][0], args[0][1])
-            dev.finish_transfers()
-            res.count("write_calls")
-            if st != "ok":
-                res.ev()
-                res.violation(f"write-raises:{type(out).__name__}", f"write({[a[0] for a in args]!r:.200}) raised {out!r:.200} ({sc.label})", {"requests": [a[0] for a in args]})
-                continue
-            tags = out if isinstance(out, list) else [out]
-            if len(tags) != len(reqs):
-                res.ev()
-                res.violation("shape", f"write() with {len(reqs)} requests returned {len(tags)} results", None)
-                continue
-            masks, overlapping = merge_masks(reqs)
-            journal = dev.write_journal[jbefore:]
-            after = prj.snapshot()
-            ok_idx = set()
-            for i, (r, t) in enumerate(zip(reqs, tags)):
-                res.ev()
-                res.seen(r.shape, r.kind, type(r.value).__name__, sc.label, min(r.nbytes() // 64, 80), len(reqs) == 1)
-                wit = {"request": r.text, "value": r.value, "config": sc.label, "conn_size": sc.conn_size, "n_requests": len(reqs), "bytes": r.nbytes(),
-                       "tag_type": r.tag.dtype.name, "dims": r.tag.dims}
-                if not t:
-                    szc = "near-conn" if abs(r.nbytes() - sc.conn_size) <= 64 else "small" if r.nbytes() < sc.conn_size else "large"
-                    res.violation(f"valid-write-fails:{r.shape.split(':')[-1]}:{'single' if len(reqs) == 1 or sc.micro else 'multi'}:{szc}",
-                                  f"write({r.text!r}, {r.value!r:.80}) [{len(reqs)} requests, {r.nbytes()} bytes, {sc.label}, connection {sc.conn_size}] -> {t!r:.200}", wit)
-                else:
-                    ok_idx.add(i)
-            # ---- journal: each successful request executed exactly once --------------------------------------------
-            used = [False] * len(journal)
-            bit_groups = {}
-            for i in sorted(ok_idx):
-                r = reqs[i]
-                if r.kind == "bit" or (r.kind == "boolarray" and not r.is_list):
-                    if r.kind == "bit":
-                        word_off, bit = r.offset, r.bit
+                rng.shuffle(reqs)
+                snap = prj.snapshot()
+                jbefore = len(dev.write_journal)
+                args = [(r.text, r.value) for r in reqs]
+                st, out = sc.b.call("write", sc.drv.write, *args) if len(args) > 1 or rng.random() < 0.5 else sc.b.call("write", sc.drv.write, args[0][0], args[0][1])
+                dev.finish_transfers()
+                res.count("write_calls")
+                if st != "ok":
+                    res.ev()
+                    res.violation(f"write-raises:{type(out).__name__}", f"write({[a[0] for a in args]!r:.200}) raised {out!r:.200} ({sc.label})", {"requests": [a[0] for a in args]})
+                    continue
+                tags = out if isinstance(out, list) else [out]
+                if len(tags) != len(reqs):
+                    res.ev()
+                    res.violation("shape", f"write() with {len(reqs)} requests returned {len(tags)} results", None)
+                    continue
+                masks, overlapping = merge_masks(reqs)
+                journal = dev.write_journal[jbefore:]
+                after = prj.snapshot()
+                ok_idx = set()
+                for i, (r, t) in enumerate(zip(reqs, tags)):
+                    res.ev()
+                    res.seen(r.shape, r.kind, type(r.value).__name__, sc.label, min(r.nbytes() // 64, 80), len(reqs) == 1)
+                    wit = {"request": r.text, "value": r.value, "config": sc.label, "conn_size": sc.conn_size, "n_requests": len(reqs), "bytes": r.nbytes(),
+                           "tag_type": r.tag.dtype.name, "dims": r.tag.dims}
+                    if not t:
+                        szc = "near-conn" if abs(r.nbytes() - sc.conn_size) <= 64 else "small" if r.nbytes() < sc.conn_size else "large"
+                        res.violation(f"valid-write-fails:{r.shape.split(':')[-1]}:{'single' if len(reqs) == 1 or sc.micro else 'multi'}:{szc}",
+                                      f"write({r.text!r}, {r.value!r:.80}) [{len(reqs)} requests, {r.nbytes()} bytes, {sc.label}, connection {sc.conn_size}] -> {t!r:.200}", wit)
                     else:
-                        word_off, bit = r.offset + 4 * (r.bit // 32), r.bit % 32
-                    bit_groups.setdefault((r.tag.full_name, word_off, r.dtype.size), []).append((i, bit, bool(logixreq.expected_written(r))))
-                    continue
-                lo = r.byte_ranges()[0][0]
-                total = r.nbytes() if r.kind != "boolmember" else 1
-                hits = [j for j, e in enumerate(journal) if not used[j] and e["kind"] == "write" and e["tag"] == r.tag.full_name and e["offset"] == lo and e["len"] == total
-                        and (e.get("bit") == (r.bit if r.kind == "boolmember" else None))]
-                if hits:
-                    used[hits[0]] = True
-                    continue
-                frags = [(j, e) for j, e in enumerate(journal) if not used[j] and e["kind"] == "write_frag" and e["tag"] == r.tag.full_name
-                         and lo <= e["offset"] < lo + total and e["total"] == total]
-                pos, chain = lo, []
-                for j, e in frags:
-                    if e["offset"] == pos:
-                        chain.append(j)
-                        pos += e["len"]
-                        if pos == lo + total:
-                            break
-                if pos == lo + total and chain:
-                    for j in chain:
+                        ok_idx.add(i)
+                # ---- journal: each successful request executed exactly once --------------------------------------------
+                used = [False] * len(journal)
+                bit_groups = {}
+                for i in sorted(ok_idx):
+                    r = reqs[i]
+                    if r.kind == "bit" or (r.kind == "boolarray" and not r.is_list):
+                        if r.kind == "bit":
+                            word_off, bit = r.offset, r.bit
+                        else:
+                            word_off, bit = r.offset + 4 * (r.bit // 32), r.bit % 32
+                        bit_groups.setdefault((r.tag.full_name, word_off, r.dtype.size), []).append((i, bit, bool(logixreq.expected_written(r))))
+                        continue
+                    lo = r.byte_ranges()[0][0]
+                    total = r.nbytes() if r.kind != "boolmember" else 1
+                    hits = [j for j, e in enumerate(journal) if not used[j] and e["kind"] == "write" and e["tag"] == r.tag.full_name and e["offset"] == lo and e["len"] == total
+                            and (e.get("bit") == (r.bit if r.kind == "boolmember" else None))]
+                    if hits:
+                        used[hits[0]] = True
+                        continue
+                    frags = [(j, e) for j, e in enumerate(journal) if not used[j] and e["kind"] == "write_frag" and e["tag"] == r.tag.full_name
+                             and lo <= e["offset"] < lo + total and e["total"] == total]
+                    pos, chain = lo, []
+                    for j, e in frags:
+                        if e["offset"] == pos:
+                            chain.append(j)
+                            pos += e["len"]
+                            if pos == lo + total:
+                                break
+                    if pos == lo + total and chain:
+                        for j in chain:
+                            used[j] = True
+                        res.count("fragmented-writes-verified")
+                        continue
+                    res.violation("reported-success-but-not-executed-once",
+                                  f"write({r.text!r}) reported success but the controller executed no single write / tiling fragment sequence for bytes [{lo},{lo + total}) of {r.tag.full_name}; journal: {[(e['kind'], e['offset'], e['len']) for e in journal if e['tag'] == r.tag.full_name]!r:.300}",
+                                  {"request": r.text, "config": sc.label})
+                for (tname, woff, size), items in bit_groups.items():
+                    want_bits = {}
+                    for i, bit, val in items:
+                        want_bits.setdefault(bit, []).append(val)
+                    entries = [(j, e) for j, e in enumerate(journal) if not used[j] and e["kind"] == "rmw" and e["tag"] == tname and e["offset"] == woff]
+                    touched = {}
+                    full = (1 << (8 * size)) - 1
+                    for j, e in entries:
                         used[j] = True
-                    res.count("fragmented-writes-verified")
-                    continue
-                res.violation("reported-success-but-not-executed-once",
-                              f"write({r.text!r}) reported success but the controller executed no single write / tiling fragment sequence for bytes [{lo},{lo + total}) of {r.tag.full_name}; journal: {[(e['kind'], e['offset'], e['len']) for e in journal if e['tag'] == r.tag.full_name]!r:.300}",
-                              {"request": r.text, "config": sc.label})
-            for (tname, woff, size), items in bit_groups.items():
-                want_bits = {}
-                for i, bit, val in items:
-                    want_bits.setdefault(bit, []).append(val)
-                entries = [(j, e) for j, e in enumerate(journal) if not used[j] and e["kind"] == "rmw" and e["tag"] == tname and e["offset"] == woff]
-                touched = {}
-                full = (1 << (8 * size)) - 1
-                for j, e in entries:
-                    used[j] = True
-                    if e["len"] != size:
-                        res.violation("rmw-mask-width", f"read-modify-write on {tname} uses {e['len']}-byte masks, tag is {size} bytes wide", None)
-                    setb, clrb = e["or"], (~e["and"]) & full
-                    if setb & clrb:
-                        res.violation("rmw-masks-contradict", f"read-modify-write on {tname}: OR {e['or']:#x} and AND {e['and']:#x} set and clear the same bit", None)
-                    for b in range(8 * size):
-                        if setb >> b & 1:
-                            touched.setdefault(b, []).append(True)
-                        if clrb >> b & 1:
-                            touched.setdefault(b, []).append(False)
-                for b, vals in want_bits.items():
-                    got = touched.get(b, [])
-                    if not (1 <= len(got) <= len(vals)) or any(g not in vals for g in got):
-                        res.violation("bit-write-not-applied-once", f"{len(vals)} request(s) for bit {b} of {tname}@{woff} (last value {vals[-1]}) but the controller's read-modify-write services touched it {got!r}",
-                                      {"tag": tname, "bit": b, "config": sc.label, "n_requests": len(reqs)})
-                extra = set(touched) - set(want_bits)
-                if extra:
-                    res.violation("rmw-touches-unrequested-bits", f"read-modify-write on {tname}@{woff} also set/cleared bits {sorted(extra)} that no request named (requested {sorted(want_bits)})",
-                                  {"tag": tname, "config": sc.label})
-            stray = [(e["kind"], e["tag"], e["offset"], e["len"]) for j, e in enumerate(journal) if not used[j] and e["kind"] != "rmw-rejected"]
-            failed_tags = {reqs[i].tag.full_name for i in range(len(reqs)) if i not in ok_idx}
-            stray = [s for s in stray if s[1] not in failed_tags]
-            if stray:
-                res.violation("extra-write-executed", f"the controller executed write services no successful request accounts for: {stray!r:.300} (requests {[r.text for r in reqs]!r:.200})",
-                              {"config": sc.label, "requests": [r.text for r in reqs]})
-            # ---- memory: addressed bytes hold the encoding, nothing else changed -------------------------------------------
-            failed_ranges = {}
-            for i, r in enumerate(reqs):
-                if i not in ok_idx:
-                    for lo, hi in r.byte_ranges():
-                        failed_ranges.setdefault(r.tag.full_name, []).append((lo, hi))
-            for tname, before in snap.items():
-                now = after[tname]
-                if now == before and tname not in masks:
-                    continue
-                tm = masks.get(tname, {})
-                skip = failed_ranges.get(tname, [])
-                for off in range(len(now)):
-                    if any(lo <= off < hi for lo, hi in skip):
+                        if e["len"] != size:
+                            res.violation("rmw-mask-width", f"read-modify-write on {tname} uses {e['len']}-byte masks, tag is {size} bytes wide", None)
+                        setb, clrb = e["or"], (~e["and"]) & full
+                        if setb & clrb:
+                            res.violation("rmw-masks-contradict", f"read-modify-write on {tname}: OR {e['or']:#x} and AND {e['and']:#x} set and clear the same bit", None)
+                        for b in range(8 * size):
+                            if setb >> b & 1:
+                                touched.setdefault(b, []).append(True)
+                            if clrb >> b & 1:
+                                touched.setdefault(b, []).append(False)
+                    for b, vals in want_bits.items():
+                        got = touched.get(b, [])
+                        if not (1 <= len(got) <= len(vals)) or any(g not in vals for g in got):
+                            res.violation("bit-write-not-applied-once", f"{len(vals)} request(s) for bit {b} of {tname}@{woff} (last value {vals[-1]}) but the controller's read-modify-write services touched it {got!r}",
+                                          {"tag": tname, "bit": b, "config": sc.label, "n_requests": len(reqs)})
+                    extra = set(touched) - set(want_bits)
+                    if extra:
+                        res.violation("rmw-touches-unrequested-bits", f"read-modify-write on {tname}@{woff} also set/cleared bits {sorted(extra)} that no request named (requested {sorted(want_bits)})",
+                                      {"tag": tname, "config": sc.label})
+                stray = [(e["kind"], e["tag"], e["offset"], e["len"]) for j, e in enumerate(journal) if not used[j] and e["kind"] != "rmw-rejected"]
+                failed_tags = {reqs[i].tag.full_name for i in range(len(reqs)) if i not in ok_idx}
+                stray = [s for s in stray if s[1] not in failed_tags]
+                if stray:
+                    res.violation("extra-write-executed", f"the controller executed write services no successful request accounts for: {stray!r:.300} (requests {[r.text for r in reqs]!r:.200})",
+                                  {"config": sc.label, "requests": [r.text for r in reqs]})
+                # ---- memory: addressed bytes hold the encoding, nothing else changed -------------------------------------------
+                failed_ranges = {}
+                for i, r in enumerate(reqs):
+                    if i not in ok_idx:
+                        for lo, hi in r.byte_ranges():
+                            failed_ranges.setdefault(r.tag.full_name, []).append((lo, hi))
+                for tname, before in snap.items():
+                    now = after[tname]
+                    if now == before and tname not in masks:
                         continue
-                    spec = tm.get(off, "untouched") if off in tm else "untouched"
-                    b = now[off]
-                    if spec == "untouched":
-                        if b != before[off]:
-                            res.violation("collateral-change", f"write({[r.text for r in reqs]!r:.160}) changed byte {off} of {tname} ({before[off]:#04x} -> {b:#04x}), which no request addresses",
-                                          {"config": sc.label, "requests": [(r.text, r.value) for r in reqs][:6]})
-                            break
-                    elif spec is None:
-                        continue
-                    elif isinstance(spec, tuple) and spec[0] == "bits":
-                        bad = [bit for bit, v in spec[1].items() if bool(b >> bit & 1) != v]
-                        keep = [bit for bit in range(8) if bit not in spec[1] and (b >> bit & 1) != (before[off] >> bit & 1)]
-                        owner_overlap = any(i in overlapping for i, r in enumerate(reqs) if r.tag.full_name == tname)
-                        if bad and not owner_overlap:
-                            res.violation("bit-not-written", f"after write({[r.text for r in reqs]!r:.160}) byte {off} of {tname} is {b:#04x}: bit(s) {bad} do not hold the written value", {"config": sc.label})
-                            break
-                        if keep and not any(m_.is_bit is False for m_ in ()) and not _struct_covers(reqs, tname, off):
-                            res.violation("bit-write-changes-other-bits", f"write({[r.text for r in reqs]!r:.160}) changed bit(s) {keep} of byte {off} of {tname} ({before[off]:#04x} -> {b:#04x}) besides the addressed ones",
-                                          {"config": sc.label})
-                            break
-                    elif isinstance(spec, tuple) and spec[0] == "bool":
-                        if bool(b) != spec[1]:
-                            res.violation("wrong-bytes-written", f"BOOL {tname} holds {b:#04x} after writing {spec[1]}", {"config": sc.label})
-                            break
-                    elif b != spec:
-                        if any(i in overlapping for i, r in enumerate(reqs) if r.tag.full_name == tname):
+                    tm = masks.get(tname, {})
+                    skip = failed_ranges.get(tname, [])
+                    for off in range(len(now)):
+                        if any(lo <= off < hi for lo, hi in skip):
                             continue
-                        rr = next((r for r in reqs if r.tag.full_name == tname and any(lo <= off < hi for lo, hi in r.byte_ranges())), reqs[0])
-                        res.violation(f"wrong-bytes-written:{rr.dtype.kind}", f"after write({rr.text!r}, {rr.value!r:.80}) byte {off} of {tname} is {b:#04x}, reference encoding has {spec:#04x} ({sc.label})",
-                                      {"request": rr.text, "value": rr.value, "config": sc.label})
-                        break
-            # ---- read back -----------------------------------------------------------------------------------------------------
-            for i in sorted(ok_idx):
-                if i in overlapping or rng.random() < 0.5:
-                    continue
-                r = reqs[i]
-                st, t = sc.b.call("read", sc.drv.read, r.text)
-                res.ev()
-                want = logixreq.expected_written(r)
-                from vlib import refcodec as rc
-                if st != "ok" or not t or not rc.values_equal(r.desc(), want, t.value):
-                    res.violation(f"read-back-differs:{r.shape.split(':')[-1]}", f"write({r.text!r}, {r.value!r:.80}) succeeded but read() then returns {t!r:.160}; expected {want!r:.100} ({sc.label})",
-                                  {"request": r.text, "value": r.value, "config": sc.label})
-            for e in journal:
-                res.count(f"service:{e['kind']}{'-embedded' if e.get('embedded') else ''}")
-            if pi == 0 and ci < 3:
-                res.sample({"config": sc.label, "writes": [(r.text, r.value) for r in reqs][:3], "journal": [(e["kind"], e["tag"], e["offset"], e["len"]) for e in journal][:6]})
-        sc.close()
+                        spec = tm.get(off, "untouched") if off in tm else "untouched"
+                        b = now[off]
+                        if spec == "untouched":
+                            if b != before[off]:
+                                res.violation("collateral-change", f"write({[r.text for r in reqs]!r:.160}) changed byte {off} of {tname} ({before[off]:#04x} -> {b:#04x}), which no request addresses",
+                                              {"config": sc.label, "requests": [(r.text, r.value) for r in reqs][:6]})
+                                break
+                        elif spec is None:
+                            continue
+                        elif isinstance(spec, tuple) and spec[0] == "bits":
+                            bad = [bit for bit, v in spec[1].items() if bool(b >> bit & 1) != v]
+                            keep = [bit for bit in range(8) if bit not in spec[1] and (b >> bit & 1) != (before[off] >> bit & 1)]
+                            owner_overlap = any(i in overlapping for i, r in enumerate(reqs) if r.tag.full_name == tname)
+                            if bad and not owner_overlap:
+                                res.violation("bit-not-written", f"after write({[r.text for r in reqs]!r:.160}) byte {off} of {tname} is {b:#04x}: bit(s) {bad} do not hold the written value", {"config": sc.label})
+                                break
+                            if keep and not any(m_.is_bit is False for m_ in ()) and not _struct_covers(reqs, tname, off):
+                                res.violation("bit-write-changes-other-bits", f"write({[r.text for r in reqs]!r:.160}) changed bit(s) {keep} of byte {off} of {tname} ({before[off]:#04x} -> {b:#04x}) besides the addressed ones",
+                                              {"config": sc.label})
+                                break
+                        elif isinstance(spec, tuple) and spec[0] == "bool":
+                            if bool(b) != spec[1]:
+                                res.violation("wrong-bytes-written", f"BOOL {tname} holds {b:#04x} after writing {spec[1]}", {"config": sc.label})
+                                break
+                        elif b != spec:
+                            if any(i in overlapping for i, r in enumerate(reqs) if r.tag.full_name == tname):
+                                continue
+                            rr = next((r for r in reqs if r.tag.full_name == tname and any(lo <= off < hi for lo, hi in r.byte_ranges())), reqs[0])
+                            res.violation(f"wrong-bytes-written:{rr.dtype.kind}", f"after write({rr.text!r}, {rr.value!r:.80}) byte {off} of {tname} is {b:#04x}, reference encoding has {spec:#04x} ({sc.label})",
+                                          {"request": rr.text, "value": rr.value, "config": sc.label})
+                            break
+                # ---- read back -----------------------------------------------------------------------------------------------------
+                for i in sorted(ok_idx):
+                    if i in overlapping or rng.random() < 0.5:
+                        continue
+                    r = reqs[i]
+                    st, t = sc.b.call("read", sc.drv.read, r.text)
+                    res.ev()
+                    want = logixreq.expected_written(r)
+                    from vlib import refcodec as rc
+                    if st != "ok" or not t or not rc.values_equal(r.desc(), want, t.value):
+                        res.violation(f"read-back-differs:{r.shape.split(':')[-1]}", f"write({r.text!r}, {r.value!r:.80}) succeeded but read() then returns {t!r:.160}; expected {want!r:.100} ({sc.label})",
+                                      {"request": r.text, "value": r.value, "config": sc.label})
+                for e in journal:
+                    res.count(f"service:{e['kind']}{'-embedded' if e.get('embedded') else ''}")
+                if pi == 0 and ci < 3:
+                    res.sample({"config": sc.label, "writes": [(r.text, r.value) for r in reqs][:3], "journal": [(e["kind"], e["tag"], e["offset"], e["len"]) for e in journal][:6]})
+            sc.close()
+        except ScenarioDead:
+            continue
     return res
 
 
